@@ -78,9 +78,10 @@ def main(argv):
     meta['caught_by_own_property'] = pid in meta['caught_by']
     dst = os.path.join(VERIF, 'seeded', sid)
     os.makedirs(dst, exist_ok=True)
-    for f in os.listdir(src):
-        if os.path.isfile(os.path.join(src, f)):
-            shutil.copy(os.path.join(src, f), os.path.join(dst, f))
+    if os.path.abspath(src) != os.path.abspath(dst):
+        for f in os.listdir(src):
+            if os.path.isfile(os.path.join(src, f)):
+                shutil.copy(os.path.join(src, f), os.path.join(dst, f))
     notes = os.path.join(src, 'notes.md')
     if os.path.exists(notes):
         meta['needs_to_manifest'] = 'see notes.md'
